@@ -2102,6 +2102,7 @@ func (h *c15H) evaluate() {
 				r.Probe("mqtt.unacked_qos1_of_ended_connection_redelivered_on_" + how + "_session")
 			} else {
 				r.Probe("mqtt.unacked_qos1_of_ended_connection_not_redelivered_on_" + how + "_session")
+				if how == "inherited" { h.violate("C15.x-investigate", "%s %s", cl.name, key) } // XXX-TEMP
 			}
 		}
 	}
